@@ -732,3 +732,30 @@ impl<T: TypeConfig> ClientApi for EmbeddedClient<T> {
 #[cfg(test)]
 #[path = "embedded_client_test/embedded_client_test.rs"]
 mod tests;
+
+// ---------------------------------------------------------------------------------------------
+// Verification hook (compiled only with `--cfg d_engine_verif`; add-only, no behaviour change).
+// ---------------------------------------------------------------------------------------------
+#[cfg(d_engine_verif)]
+impl<T: TypeConfig> crate::Node<T> {
+    /// Build an `EmbeddedClient` the way `EmbeddedEngine` does (an `EmbeddedReadHandle` over the
+    /// state machine, the shared read lease and the Raft command channel), from caller-supplied
+    /// parts, so that an out-of-tree harness can drive the embedded read path in-process and play
+    /// the Raft loop's part on `cmd_tx`'s receiver. (Hung on `Node<T>` only because the generic
+    /// `EmbeddedClient<T>` is not nameable from outside the crate.)
+    pub fn verif_embedded_client(
+        event_tx: mpsc::Sender<InboundEvent>,
+        cmd_tx: mpsc::Sender<d_engine_core::ClientCmd>,
+        state_machine: Arc<T::SM>,
+        read_lease: Arc<d_engine_core::ReadLease>,
+        client_id: u32,
+        timeout: Duration,
+    ) -> EmbeddedClient<T> {
+        EmbeddedClient::new_internal(
+            event_tx,
+            EmbeddedReadHandle::new(state_machine, read_lease, cmd_tx),
+            client_id,
+            timeout,
+        )
+    }
+}
